@@ -207,6 +207,9 @@ def check_fn(name, x, cfg, NFFT, c):
 
 
 def replay(rep):
+    if rep.get('replay', {}).get('form') == 'routes':
+        from props import _estimators as E_
+        return E_.replay_routes(rep['replay'])
     r = rep['replay']; x = vlib.unhexv(r['x'])
     if r['datatype'] == 'real':
         x = np.real(x)
@@ -230,6 +233,9 @@ def jcfg(cfg):
 def run(ctx):
     rng = ctx.rng
     ctx.check_theorems('Properties/C05.v')
+    # the estimate an object holds does not depend on the history that gave it its data and settings (every route of _estimators.via)
+    from props import _estimators as E_
+    E_.class_route_stream(ctx, E_.CLASSES, 'routes')
 
     # ---------------- translator + theorems over the generated pipeline table
     src = os.path.join(vlib.SNAP, 'src', 'spectrum')
